@@ -478,6 +478,7 @@ fn field_ty(d: &mut Dice, l: &Layout, m: &Model, vi: usize, j: usize, generic: b
     }
 }
 
+#[derive(Clone)]
 struct Variant {
     name: String,
     layout: Layout,
@@ -820,6 +821,8 @@ fn build_with(d: &mut Dice, nightly: bool) -> GenCase {
                 f.attr = At::None;
             }
         }
+        // the ambiguous variant alone (the in-process confirmation must not trip over another variant)
+        let iso = TypeDef { name: "Z".into(), is_enum, struct_ignored: false, variants: vec![variants[vi].clone()] };
         let t = TypeDef { name: "Z".into(), is_enum, struct_ignored: false, variants };
         // generics may have lost their only use: recompute from the declared field types
         let mut gu2 = GenUse::default();
@@ -836,7 +839,7 @@ fn build_with(d: &mut Dice, nightly: bool) -> GenCase {
         }
         let gens = generics_text(gu2, order);
         let body = render_type(&t, &gens, true);
-        let item = render_item_only(&t, &gens);
+        let item = render_item_only(&iso, &(String::new(), String::new(), String::new()));
         let mut c = GenCase::new(body);
         c.expect_compile = false;
         c.runnable = false;
@@ -1145,8 +1148,8 @@ pub fn prop() -> DiceProp {
         nightly: false,
         check_only: false,
         ndice: 200,
-        quick: (1100, 1),
-        thorough: (4000, 4),
+        quick: (1600, 1),
+        thorough: (5000, 4),
         build: build_stable,
         fixed: fixed_stable,
         classify,
@@ -1181,7 +1184,7 @@ pub fn prop_nightly() -> DiceProp {
         nightly: true,
         check_only: false,
         ndice: 200,
-        quick: (500, 1),
+        quick: (700, 1),
         thorough: (2500, 4),
         build: build_nightly,
         fixed: fixed_nightly,
